@@ -85,12 +85,23 @@ class Obs:
         self.samples = []    # (now, sum of limits, scale)
         self.probe = None    # (start, end, volume) of the probe transfer
         self.leftover = None
+        self.bystander = None   # (start, end) of the transfer over the second, independent pipe
 
 
 def run_impl(case, probe=True):
     xs = case['xs']
     obs = Obs()
     T = math.inf if case['T'] is None else fl(case['T'])
+
+    pre = {}
+
+    async def plain(i, pipe, vol, lim):
+        try:
+            await pipe.transfer(vol, throughput=lim)
+            obs.done[i] = time.now
+        except GeneratorExit:
+            obs.left[i] = time.now
+            raise
 
     async def xfer(i, pipe):
         x = xs[i]
@@ -103,6 +114,14 @@ def run_impl(case, probe=True):
                     obs.done[i] = time.now
                 if i not in obs.done:
                     obs.left[i] = time.now
+            elif x['cancel'] is not None and x['how'] == 'close':
+                # the transfer is a volatile child of a scope that ends at the date: it is CLOSED (GeneratorExit) there
+                async with Scope() as inner:
+                    inner.do(plain(i, pipe, vol, lim), volatile=True)
+                    await (time == x['cancel'])
+            elif i in pre:
+                await pre.pop(i)       # the awaitable was created before the run of transfers began, it starts now
+                obs.done[i] = time.now
             else:
                 await pipe.transfer(vol, throughput=lim)
                 obs.done[i] = time.now
@@ -121,8 +140,20 @@ def run_impl(case, probe=True):
             orig()
             obs.samples.append((time.now, sum(pipe._subscriptions.values()), pipe._throughput_scale))
         pipe._throttle_subscribers = sampled
+        async def bystander(t2, vol, lim):
+            other = Pipe(throughput=t2)
+            t0 = time.now
+            await other.transfer(vol, throughput=lim)
+            obs.bystander = (t0, time.now)
+        for i, x in enumerate(xs):
+            if x.get('pre'):
+                pre[i] = pipe.transfer(fl(x['vol']), throughput=None if x['lim'] is None else math.inf if x['lim'] == 'inf'
+                                       else fl(x['lim']))
         async with Scope() as scope:
             tasks = {}
+            if case.get('bystander'):
+                # a second pipe used at the same time: pipes are independent objects
+                scope.do(bystander(*[fl(q) for q in case['bystander']]))
             for i, x in enumerate(xs):
                 tasks[i] = scope.do(xfer(i, pipe), after=x['start'] if x['start'] > 0 else None)
             for c, i in sorted((x['cancel'], i) for i, x in enumerate(xs)
@@ -157,6 +188,8 @@ def run_impl(case, probe=True):
         if old is not None:
             signal.alarm(0)
             signal.signal(signal.SIGALRM, old)
+    for aw in pre.values():      # never awaited (cancelled before its start): no "never awaited" warning
+        aw.close()
     if obs.probe is None and probe and not obs.errors:
         obs.errors.append(('run', 'not finished at time %d (the fluid model ends at %s)' % (horizon, fluid(case)[4])))
     return obs
@@ -278,6 +311,14 @@ def monitor(case, obs):
         if not ok:
             bad.append('probe transfer of %s started at %r after all others ended or were cancelled and took %r '
                        'instead of %s: somebody still occupies bandwidth' % (fr(pv), t0, t1 - t0, want))
+    if case.get('bystander') and not obs.errors:
+        t2, vol, lim = (fr(q) for q in case['bystander'])
+        want = vol / min(t2, lim)
+        if obs.bystander is None:
+            bad.append('the transfer over a second, independent pipe (throughput %s, volume %s, limit %s) never completed' % (t2, vol, lim))
+        elif not (F(obs.bystander[1]) - F(obs.bystander[0]) == want):
+            bad.append('a transfer of %s with limit %s over a second, otherwise unused pipe of throughput %s took %r instead of %s: '
+                       'the pipes are not independent' % (vol, lim, t2, obs.bystander[1] - obs.bystander[0], want))
     if obs.leftover:
         bad.append('%d transfers still subscribed to the pipe after all ended or were cancelled' % obs.leftover)
     return bad
@@ -299,7 +340,9 @@ def gen_xs(rng, n, starts, vols, lims, p_cancel, horizon):
         if rng.random() < p_cancel:
             cancel = start + rng.randint(1, horizon)
         xs.append(dict(start=start, vol=vol, lim=lim, cancel=cancel,
-                       how=rng.choice(['cancel', 'cancel', 'until'])))
+                       how=rng.choice(['cancel', 'cancel', 'until', 'close'])))
+        if cancel is None and start > 0 and rng.random() < 0.3:
+            xs[-1]['pre'] = True     # `pipe.transfer(...)` object created at time 0, awaited at `start`
     return xs
 
 
@@ -322,8 +365,12 @@ def gen_exact(rng):
             start = rng.choice([0, 0, 0, 1, 2, 3])
             cancel = start + rng.randint(1, 5) if rng.random() < 0.3 else None
             xs.append(dict(start=start, vol=[v.numerator, v.denominator], lim=lim, cancel=cancel,
-                           how=rng.choice(['cancel', 'cancel', 'until'])))
+                           how=rng.choice(['cancel', 'cancel', 'until', 'close'])))
+            if cancel is None and start > 0 and rng.random() < 0.3:
+                xs[-1]['pre'] = True
         case = dict(family='exact', exact=True, T=[T, 1], pipe='Pipe', xs=xs, probe=[T, 1])
+        if rng.random() < 0.3:
+            case['bystander'] = [[rng.choice([1, 2, 4]), 1], [rng.choice([2, 4, 8, 16]), 1], [rng.choice([1, 2, 4, 8]), 1]]
         if rng.random() < 0.25:
             # the same shape at a tiny magnitude (volumes, limits and throughput times 2**-34, durations unchanged): the
             # fluid model has no absolute scale, so neither may the implementation
@@ -353,7 +400,10 @@ def gen_general(rng):
     lims = [[k, 1] for k in range(1, 9)] + [None, [1, 2], [7, 3]]
     vols = [[k, 1] for k in (0, 1, 2, 3, 4, 5, 6, 8, 12)] + [[1, 3], [5, 2]]
     xs = gen_xs(rng, n, [0, 0, 0, 1, 2, 3, 4, 6], vols, lims, 0.3, 6)
-    return dict(family='general', exact=False, T=T, pipe='Pipe', xs=xs, probe=[3, 1])
+    case = dict(family='general', exact=False, T=T, pipe='Pipe', xs=xs, probe=[3, 1])
+    if rng.random() < 0.3:
+        case['bystander'] = [[rng.choice([1, 2, 4]), 1], [rng.choice([2, 4, 8, 16]), 1], [rng.choice([1, 2, 4, 8]), 1]]
+    return case
 
 
 def gen_inf(rng):
@@ -537,6 +587,101 @@ def d12_scenario(ctx):
                 break
 
 
+def infinite_volumes(ctx, n):
+    """a stream of infinite volume (a background load that lives as long as its scope) never completes and occupies its
+    share all the time: a foreground transfer next to it progresses at f * min(1, T / (b + f)); once the stream's scope
+    has closed it, a probe transfer has the pipe for itself again (expected times from the formula of the property text)"""
+    rng = ctx.rng
+    for _ in range(n):
+        T = rng.choice([1, 2, 4, 8, 10])
+        b = rng.choice([1, 2, 4, 5])
+        f = rng.choice([1, 2, 4, 8, 10])
+        V = rng.choice([2, 4, 6, 10])
+        s0 = rng.choice([0, 1, 2])
+        case = dict(infinite_volume=dict(T=T, background_limit=b, foreground_limit=f, volume=V, foreground_start=s0))
+        rep = {}
+
+        async def main():
+            pipe = Pipe(throughput=T)
+            async with Scope() as scope:
+                bg = scope.do(pipe.transfer(total=math.inf, throughput=b), volatile=True)
+                if s0:
+                    await (time + s0)
+                t0 = time.now
+                await pipe.transfer(total=V, throughput=f)
+                rep['fore'] = time.now - t0
+                rep['bg_done'] = bool(bg.done)
+            t0 = time.now
+            await pipe.transfer(total=V, throughput=f)
+            rep['probe'] = time.now - t0
+        try:
+            usim.run(main(), till=10000)
+        except BaseException as e:   # noqa
+            ctx.fail(case, 'raised %r' % (e,), family='infinite-volumes')
+            continue
+        ctx.count(case, nontrivial=True)
+        ctx.bump('family:infinite-volumes')
+        want_fore = F(V) / (F(f) * min(F(1), F(T, b + f)))
+        want_probe = F(V) / min(F(f), F(T))
+        bad = []
+        if rep.get('bg_done'):
+            bad.append('the stream of infinite volume completed')
+        for k, want in (('fore', want_fore), ('probe', want_probe)):
+            g = rep.get(k)
+            if g is None or abs(F(g) - want) > F(1, 10 ** 9) * max(F(1), want):
+                bad.append('%s transfer took %r, the rate formula gives %s = %.12g' % (k, g, want, float(want)))
+        if bad:
+            ctx.fail(case, 'Pipe(%d) with a stream of infinite volume (limit %d) and a transfer of %d (limit %d): %s'
+                     % (T, b, V, f, '; '.join(bad)), family='infinite-volumes')
+
+
+def crowded_pipe(ctx, n):
+    """more than a hundred transfers at once: one arrival or departure changes everybody's share by less than a percent -
+    and still by exactly what the formula says.  N equal transfers (limit 1, volume V) on Pipe(T) started together end
+    together at N * V / T; a second wave that joins at half time slows everybody down by exactly its share"""
+    rng = ctx.rng
+    for _ in range(n):
+        N = rng.choice([110, 130, 160])
+        M = rng.choice([0, 0, 1, 5])
+        T = rng.choice([1, 2, 4])
+        V = rng.choice([1, 2])
+        case = dict(crowded_pipe=dict(transfers=N, late_transfers=M, T=T, volume=V))
+        ends = []
+        half = F(N * V, T) / 2
+
+        async def one(pipe, delay):
+            if delay:
+                await (time + delay)
+            await pipe.transfer(total=V, throughput=1)
+            ends.append(time.now)
+
+        async def main():
+            pipe = Pipe(throughput=T)
+            async with Scope() as scope:
+                for _ in range(N):
+                    scope.do(one(pipe, 0))
+                for _ in range(M):
+                    scope.do(one(pipe, float(half)))
+        try:
+            usim.run(main(), till=100000)
+        except BaseException as e:   # noqa
+            ctx.fail(case, 'raised %r' % (e,), family='crowded-pipe')
+            continue
+        ctx.count(case, nontrivial=True)
+        ctx.bump('family:crowded-pipe')
+        # the first wave: V = half * T / N + (t - half) * T / (N + M); the late ones have moved (t - half) * T / (N + M) by
+        # then and go on at min(1, T / M) each
+        want_first = half + (F(V) - half * F(T, N)) * F(N + M, T) if M else F(N * V, T)
+        want_last = want_first + (F(V) - (want_first - half) * F(T, N + M)) / min(F(1), F(T, M)) if M else want_first
+        firsts, lasts = ends[:N], ends[N:]
+        bad = [g for g in firsts if abs(F(g) - want_first) > F(1, 10 ** 9) * want_first] + \
+              [g for g in lasts if abs(F(g) - want_last) > F(1, 10 ** 9) * want_last]
+        if len(ends) != N + M or bad:
+            ctx.fail(case, '%d equal transfers (limit 1, volume %d) on Pipe(%d), %d more joining at %s: %d completed, the first '
+                           'wave should end at %.12g and the second at %.12g; observed e.g. %r'
+                     % (N, V, T, M, half, len(ends), float(want_first), float(want_last), (bad or ends)[:3]), family='crowded-pipe')
+
+
 def gen_cases(ctx, n):
     rng = ctx.rng
     cases = []
@@ -554,6 +699,8 @@ def run(ctx):
     batch(ctx, corner_cases(), 'corner')
     batch(ctx, gen_cases(ctx, ctx.n(300, 5000)), 'rand')
     d12_scenario(ctx)
+    infinite_volumes(ctx, ctx.n(40, 400))
+    crowded_pipe(ctx, ctx.n(6, 40))
 
 
 def search(ctx):
